@@ -29,9 +29,10 @@ type c03C struct {
 }
 
 type c03D struct {
-	Val int64
-	P   *c03D
-	I   interface{}
+	Val    int64
+	hidden int // a struct *value* held in an interface keeps its unexported state
+	P      *c03D
+	I      interface{}
 }
 
 type c03DRef *c03D
@@ -213,7 +214,11 @@ func c03famD(n int) {
 	}
 	for i, nd := range nodes {
 		nd.P = get("n" + strconv.Itoa(i) + "P")
-		switch zzverif.Choose("n"+strconv.Itoa(i)+"I", 7) {
+		switch zzverif.Choose("n"+strconv.Itoa(i)+"I", 9) {
+		case 7: // a typed nil map held in the interface stays a nil map
+			nd.I = map[string]*c03D(nil)
+		case 8: // ... of another type
+			nd.I = map[string]int(nil)
 		case 5: // a map held in the interface that contains itself (through an interface value)
 			m := map[string]interface{}{"v": int64(3)}
 			m["self"] = m
@@ -223,7 +228,7 @@ func c03famD(n int) {
 		case 1: // pointer held in the interface (possibly back to this node, possibly a typed nil)
 			nd.I = get("n" + strconv.Itoa(i) + "Ip")
 		case 2: // struct value held in the interface
-			nd.I = c03D{Val: 7, P: get("n" + strconv.Itoa(i) + "Is")}
+			nd.I = c03D{Val: 7, hidden: 3, P: get("n" + strconv.Itoa(i) + "Is")}
 		case 3:
 			nd.I = map[string]*c03D{"k": get("n" + strconv.Itoa(i) + "Im")}
 		case 4:
